@@ -96,6 +96,7 @@ func checkC01(c *Ctx) {
 	r.Import("C15.", "C01.j", "", 40, func() { checkC15(c) })
 	checkListOrder(c, "C01.j", f)
 	c.checkPins(f, "C01.j", exprTypePins)
+	c.checkPins(f, "C01.j", irFactoryPins)
 	// (c) run-time side
 	var sp []termSpec
 	for _, t := range c14Specs["pkg/frt"] {
